@@ -71,7 +71,7 @@ func c05Case(i uint64) (pattern, src, fam string, compile bool) {
 	}
 	j := i - P*F - uint64(len(c05CompileFamilies))
 	if j%3 != 2 {
-		k := j / 3 * 2 + j%3
+		k := j/3*2 + j%3
 		return c05Patterns[k%P], "adversarial-variant", c05Families[(k/P)%F], false
 	}
 	c := gen.D(i)
@@ -337,7 +337,9 @@ var c05CompileFamilies = []func(k int) string{
 		return gen.ManyLiterals(r, k, k%2 == 0)
 	},
 	func(k int) string { return "(?i:" + strings.Repeat("hello", k/4+1) + ")" },
-	func(k int) string { return `\d{` + strconv.Itoa(min(k, 1000)) + `}-\w{` + strconv.Itoa(min(k, 500)) + "}" },
+	func(k int) string {
+		return `\d{` + strconv.Itoa(min(k, 1000)) + `}-\w{` + strconv.Itoa(min(k, 500)) + "}"
+	},
 	func(k int) string { return "(a{2}){" + strconv.Itoa(min(k, 400)) + "}" },
 	func(k int) string { return "[αβγ]{" + strconv.Itoa(min(k, 500)) + "}" },
 	func(k int) string { return ".{" + strconv.Itoa(min(k, 300)) + "}z" },
